@@ -724,7 +724,7 @@ func runC11(c *ev.ChildEnv, res *ev.Result) {
 			}
 		}
 	}
-	reps := tierN(c.Tier, 1, 3)
+	reps := tierN(c.Tier, 1, 8)
 	for i, cc := range cuts {
 		if i%c.Batches != c.Batch {
 			continue
@@ -743,7 +743,7 @@ func runC11(c *ev.ChildEnv, res *ev.Result) {
 	}
 	res.Sample(map[string]any{"scenario": "cut", "exchange_a2b_bytes": ta, "exchange_b2a_bytes": tb, "script_a": c11ScriptA, "script_b": c11ScriptB})
 
-	nClose := tierN(c.Tier, 40, 600) / c.Batches
+	nClose := tierN(c.Tier, 40, 3000) / c.Batches
 	modes := []string{"local-mux", "remote-mux", "trunk", "conn-then-mux", "both"}
 	for i := 0; i < nClose; i++ {
 		if res.HangCount() >= 3 {
@@ -822,7 +822,7 @@ func init() {
 	register(&Check{
 		ID: "C11", Level: "fault_enumeration", MinNontriv: 30,
 		Anchors: []string{"pkg/net/multiplex/mux.go", "pkg/net/conn.go"},
-		Rule:    "fault list over two real Mux endpoints: (A) trunk cut at byte offset k of a fixed two-connection exchange in each direction (quick: every frame/header/payload boundary plus a stride of 7; thorough: every k, 3 repetitions) on socketpair and net.Pipe trunks; (B) local/remote/trunk/conn-then-mux/both-ends close by 1-8 concurrent closers at a seeded frame count during concurrent traffic; (C) receive-queue overflow at queue lengths 2-8; (D) orderly close at quiescence; (E) wrapped listener accept/close; (F) close/reopen/stale-close of a connection id; oracles: per-reader stream parser (prefix, no gap/duplicate/damage), every blocked and later Read/Write returns an error (hang rule: 10 s + 1 s with goroutine dump), end-of-file after orderly close, closers return; (A') the same exchange with one transient short write (error, trunk stays open) at each offset; (E') 400/4000 rounds of 8 simultaneous closers of one wrapped listener plus Mux.Close; (G) connections obtained after local close / remote close / trunk cut; distinct = distinct fault points/configurations exercised",
+		Rule:    "fault list over two real Mux endpoints: (A) trunk cut at byte offset k of a fixed two-connection exchange in each direction (quick: every frame/header/payload boundary plus a stride of 7; thorough: every k, 8 repetitions) on socketpair and net.Pipe trunks; (B) local/remote/trunk/conn-then-mux/both-ends close by 1-8 concurrent closers at a seeded frame count during concurrent traffic; (C) receive-queue overflow at queue lengths 2-8; (D) orderly close at quiescence; (E) wrapped listener accept/close; (F) close/reopen/stale-close of a connection id; oracles: per-reader stream parser (prefix, no gap/duplicate/damage), every blocked and later Read/Write returns an error (hang rule: 10 s + 1 s with goroutine dump), end-of-file after orderly close, closers return; (A') the same exchange with one transient short write (error, trunk stays open) at each offset; (E') 400/4000 rounds of 8 simultaneous closers of one wrapped listener plus Mux.Close; (G) connections obtained after local close / remote close / trunk cut; distinct = distinct fault points/configurations exercised",
 		Assumptions: []string{
 			"completeness of delivery is not asserted for a close that races unread data (Read selects at random between the close signal and queued frames); the prefix property is",
 			"overflow needs a buffering trunk: exercised on the unix socketpair only",
